@@ -283,6 +283,10 @@ Proof. intros Hwfc Hl. unfold pam_layout_pass.
   split; auto. rewrite (apply_perm_full nq p pl Hw Hl) in Ep. inversion Ep; auto. Qed.
 
 (* ---- semantic reading of a PAM output (definitions only; used by the unproved full statement) ---- *)
+(* the wire map of "move wire L[j] to wire L[r[j]]" (identity outside L) *)
+Definition fmove (L r : list nat) (x : nat) : nat :=
+  match Perm.index_of x L with Some j => nth (nth j r 0) L 0 | None => x end.
+
 Section PamSemDefs.
 Variable M : Type.
 Variable mul : M -> M -> M.
